@@ -151,3 +151,29 @@ def writes_cell_reachable(ctx, roots):
     """Call path from roots to a function that writes a parameter cell it did not create itself, or None."""
     writers = {b.key_in_facts for b, _ in nonfresh_writer_sites(ctx)}
     return ctx.cg.path_to(roots, lambda k: k in writers)
+
+
+def import_obligations(ctx, src_prop, rule_as, only_rules=None, prefix=None, floor=1):
+    """Run another property's rule module on the same facts and record (a subset of) its obligations under `rule_as` of the
+    current report (cross-import: the other property's clause is a necessary condition of this one)."""
+    import importlib
+    from ..harness import Report
+    rep = ctx.rep
+    mod = importlib.import_module('pk.rules.' + src_prop)
+    sub = type('Ctx', (), {})()
+    sub.__dict__.update(ctx.__dict__)
+    sub.rep = Report(src_prop, ctx.tier)
+    mod.run(sub)
+    n = 0
+    pre = prefix or (src_prop + ':')
+    for o in sub.rep.obligations:
+        if only_rules is not None and o['rule'] not in only_rules:
+            continue
+        n += 1
+        if o['ok']:
+            rep.ok(rule_as, pre + o['rule'] + '/' + o['instance'], o['construct'], o['why'])
+        else:
+            rep.fail(rule_as, pre + o['rule'] + '/' + o['instance'], o['construct'], o['why'], o['reason'])
+    rep.floor(rule_as, 'obligations imported from %s%s' % (src_prop, (' ' + '/'.join(sorted(only_rules))) if only_rules else ''), n, floor)
+    rep.analysed |= sub.rep.analysed
+    return n
